@@ -1,5 +1,5 @@
 (** * C17 -- feeding a program in pieces *)
-From QV Require Import Interp Sym C17T C17T2 C17T3.
+From QV Require Import Interp Sym C17T C17T2 C17T3 C17T4.
 
 Theorem C17_record : C17_record_stmt.
 Proof. exact C17_record_proof. Qed.
@@ -20,3 +20,7 @@ Print Assumptions C17_changes.
 Theorem C17_rerun : C17_rerun_stmt.
 Proof. exact C17_rerun_proof. Qed.
 Print Assumptions C17_rerun.
+
+Theorem C17_pieces : C17_pieces_stmt.
+Proof. exact C17_pieces_proof. Qed.
+Print Assumptions C17_pieces.
